@@ -70,9 +70,9 @@ func classifyLeak(leaks string) string {
 
 func runParser(ctx *bex.Ctx) {
 	ctx.Space("parser-early-stop")
-	maxLen := 3
+	maxLen := 4
 	if !ctx.Quick() {
-		maxLen = 4
+		maxLen = 5
 	}
 	g := newGen()
 	gp := genericParser()
